@@ -100,13 +100,14 @@ def idx_plain(idx, asm):
     )
 
 
-def check_differential(ctx, data, scs, buffers, scratch, case_ref):
+def check_differential(ctx, data, scs, buffers, scratch, case_ref, second=None):
     from tola.assembly.assembly import Assembly
     from tola.fasta.index import index_fasta_file
     from tola.fasta.stream import FastaStream
 
     ctx.case()
-    case = {"kind": "diff", "data": base64.b64encode(data).decode(), "scaffolds": scs, "buffers": buffers}
+    case = {"kind": "diff", "data": base64.b64encode(data).decode(), "scaffolds": scs, "buffers": buffers,
+            "second": second or [[7, 60, 61, 1000][len(data) % 4], "nNx-"[len(scs) % 4]]}
     case_ref["case"] = case
     p = Path(scratch) / "d.fa"
     p.write_bytes(data)
@@ -123,6 +124,10 @@ def check_differential(ctx, data, scs, buffers, scratch, case_ref):
         out = io.BytesIO()
         try:
             FastaStream(out, fi).write_assembly(Assembly("o", scaffolds=build_scaffolds(scs)))
+            # second use of the same index object, with other stream options: still the same for every buffer
+            out.write(b"\n--second-stream-from-the-same-index--\n")
+            FastaStream(out, fi, line_length=case["second"][0], gap_character=case["second"][1].encode()).write_assembly(Assembly("o2", scaffolds=build_scaffolds(scs)))
+            ctx.count("diff:second-stream-from-same-index")
         except Exception as e:  # noqa: BLE001
             ctx.violation(f"stream-raised-{type(e).__name__}", f"buffer={bs}: {e}", case)
             return
@@ -268,7 +273,7 @@ def replay(case, ctx):
     attach(ctx, case_ref)
     scratch = os.environ.get("VERIF_SHARD_SCRATCH", ".")
     if case["kind"] == "diff":
-        check_differential(ctx, base64.b64decode(case["data"]), case["scaffolds"], case["buffers"], scratch, case_ref)
+        check_differential(ctx, base64.b64decode(case["data"]), case["scaffolds"], case["buffers"], scratch, case_ref, second=case.get("second"))
     else:
         check_memory(ctx, case["buffer"], case["mult"], scratch, case_ref, case["shape"])
 
@@ -287,6 +292,7 @@ def gates(c, tier):
     need = {
         "diff:cases-ok": 500,
         "diff:buffer-runs": 5000,
+        "diff:second-stream-from-same-index": 5000,
         "io:reads": 10000,
         "io:chunks:fwd_chunks": 5000,
         "io:chunks:rev_chunks": 2000,
